@@ -41,7 +41,7 @@ fn main() {
                     }
                 }
             }
-            match oracle::selftest::run(true) {
+            match oracle::selftest::run(true).and_then(|m| oracle::dtm::selftest().map(|d| format!("{}\n{}", m, d))) {
                 Ok(msg) => println!("{}", msg),
                 Err(e) => {
                     println!("INCONCLUSIVE harness self-test failed:\n{}", e);
@@ -51,7 +51,7 @@ fn main() {
         }
         "selftest" => {
             let full = args.get(2).map(|s| s == "full").unwrap_or(false);
-            match oracle::selftest::run(full) {
+            match oracle::selftest::run(full).and_then(|m| if full { oracle::dtm::selftest().map(|d| format!("{}\n{}", m, d)) } else { Ok(m) }) {
                 Ok(msg) => println!("{}", msg),
                 Err(e) => {
                     println!("INCONCLUSIVE harness self-test failed:\n{}", e);
